@@ -54,6 +54,8 @@ def cases_ops(tier):
     states = [()]
     for k in (1, 2, 3):
         states += list(itertools.permutations(NAMES, k))
+    if tier == "thorough":
+        states += list(itertools.permutations(NAMES + ("e",), 4))
     for st in states:
         yield "state=%s" % ",".join(st), {"state": list(st)}
 
@@ -160,7 +162,7 @@ def scn_ops(T, case):
 
 # ------------------------------------------------------------------------------------ lookups depend on the registry only (no hidden state)
 def cases_sequences(tier):
-    for st in ([], ["a"], ["a", "b"]):
+    for st in ([], ["a"], ["a", "b"]) + ((["b", "a"], ["a", "b", "d"], ["d", "b", "a"]) if tier == "thorough" else ()):
         for prio in (False, True):
             yield "state=%s/then-add-%s" % (",".join(st), "prioritized" if prio else "appended"), {"state": st, "prio": prio}
 
